@@ -146,6 +146,11 @@ def case_events(case, spec):
         del edges, cells
         cids = list(fr.cells.keys())
         cidx = {cid: i + 1 for i, cid in enumerate(cids)}
+        # the objects also carry ground-truth values (as parsed Surface Evolver tissues do): nothing of them may enter
+        for c_ in fr.cells.values():
+            c_.gt_pressure = rng.uniform(0.5, 3.0)
+        for b_ in fr.big_edges.values():
+            b_.gt = rng.uniform(0.5, 3.0)
         n, m = len(cids), len(fr.big_edges)
         cms = [[z / lam for z in c.get_cm()] for c in fr.cells.values()]
         areas = [abs(c.get_area()) / lam / lam for c in fr.cells.values()]
